@@ -8,12 +8,13 @@ import sys
 import time
 from pathlib import Path
 
-from . import props
-from .loader import AnalysisError, Program
-from .report import EVIDENCE_DIR, Run
 
 
 def run_property(pid: str, tier: str, seed: int) -> int:
+    from . import props
+    from .loader import AnalysisError, Program
+    from .report import Run
+
     fn = getattr(props, pid, None)
     if fn is None:
         print(f"ANALYSIS-ERROR property={pid} no check registered")
@@ -36,6 +37,10 @@ def run_property(pid: str, tier: str, seed: int) -> int:
 
 
 def replay(path: str) -> int:
+    from . import props
+    from .loader import Program
+    from .report import Run
+
     d = json.loads(Path(path).read_text())
     pid = d["property"]
     print(f"replay: property={pid} rule={d['rule']} construct={d['construct']}")
@@ -66,6 +71,11 @@ def main(argv) -> int:
     a = ap.parse_args(argv)
     if a.repo:
         os.environ["ODCVERIF_REPO"] = a.repo
+    if os.environ.get("ODCVERIF_REPO", "/repo").rstrip("/") != "/repo" and not os.environ.get("ODCVERIF_EVIDENCE_DIR"):
+        # scratch trees never overwrite the evidence of /repo
+        os.environ["ODCVERIF_EVIDENCE_DIR"] = f"/tmp/odcverif-evidence-{os.getpid()}"
+    from . import props
+
     seed = int(os.environ.get("VERIF_SEED", "0") or 0)
     if a.replay:
         return replay(a.replay)
